@@ -9,7 +9,9 @@ Cases:  `sub:<ty> x` / `sup:<ty> x`   collected `iter_submasks` / `iter_supermas
 `M` is the model (`iterSubmasks`, `iterSupermasks`, `nextPermutationIdx`, `iterPermutations`, `neighbours`);
 `S` is the specification: the by-definition one (`specSubmasks`, `specSupermasks`, `specNextPermutation`,
 `specPermutations`, `specNeighbours`) where it is cheap enough, else its proved-equal fast form
-(`subsAsc`, `supsAsc`, `nextPermutation`; see `Props/C15.lean`). -/
+(`subsAsc`, `supsAsc`, `nextPermutation`; see `Props/C15.lean`).  Masks with more than 24 free bits and sequences
+longer than 9 are refused by both sides (`refused:too-many-elements`, `S any`): never generated, only a guard
+against a stray corpus / replay line asking for 2^64 elements. -/
 open Rlib Rlib.Iter
 
 def showNp : Except Panic (List Int × Bool) → String
@@ -25,6 +27,7 @@ def handle (line : String) : String :=
     match parseInt? xs with
     | some xi =>
       let x := (wrapU t.bits xi).toNat
+      if popcount t.bits x > 24 then answer "refused:too-many-elements" "any" else
       let spec := if x < 4096 then specSubmasks x else (subsAsc x).reverse
       answer (showMasks t (iterSubmasks t.bits x)) (showMasks t spec)
     | none => badLine line
@@ -32,6 +35,7 @@ def handle (line : String) : String :=
     match parseInt? xs with
     | some xi =>
       let x := (wrapU t.bits xi).toNat
+      if countZeros t.bits x > 24 then answer "refused:too-many-elements" "any" else
       let spec := if t.bits ≤ 8 then specSupermasks t.bits x else supsAsc t.bits x
       answer (showMasks t (iterSupermasks t.bits x)) (showMasks t spec)
     | none => badLine line
@@ -46,7 +50,7 @@ def handle (line : String) : String :=
     | some d =>
       if d.length ≤ 9 then
         answer (showExcept showPerms (iterPermutations d)) (showPerms (specPermutations d))
-      else answer (showExcept showPerms (iterPermutations d)) "any"
+      else answer "refused:too-many-elements" "any"
     | none => badLine line
   | (kind, none), [ns, ms, is, js] =>
     match parseNats? [ns, ms, is, js] with
